@@ -1,6 +1,8 @@
 import InfluxQL.Lemmas.Prec
 import InfluxQL.Model.ParserCore
 import InfluxQL.Lemmas.ExprRoundTrip
+import InfluxQL.Lemmas.ExprRoundTripWide
+import InfluxQL.Lemmas.StmtExprPiecesWide
 /-!
 # C03 — binary operators group by precedence and associate to the left
 
@@ -227,5 +229,152 @@ example : Expr.print (.binary .LT (.call "max".toList [.varRef "v".toList .Float
 -- the excluded region: the tree of the known finding is not printable
 example : ¬ Printable (.binary .DIV (.varRef ['b'] .Unknown) (.binary .MUL (.integer (-1)) (.varRef ['a'] .Unknown))) := by
   decide
+
+/-! ## The wide class: durations, numbers, wildcards, `DISTINCT`, negative literals, call names by the table -/
+
+/-- **The wide printable class**, relative to the lower-casing table `lower` of the input
+(`RT.wOK`, decidable). On top of `PrintableX`:
+* `DurationLiteral` of every value except `MinInt64` (`-1h30m` is read as `-` and `90m`, negated);
+* `NumberLiteral` of either sign (`-0.0` included) in canonical form (`Dec.canonical`: at least one
+  decimal, no trailing zero but the one of `x.0` — in the model `1.50` and `1.5` are distinct trees
+  that print alike) and below the `float64` overflow bound (`Dec.finite`);
+* `Wildcard` `*`, `*::field`, `*::tag` in any operand position (`parseUnaryExpr` accepts them everywhere);
+* `DISTINCT name` and calls of `distinct(…)`;
+* `Call` names and cast type names characterised by the table itself: a bare non-keyword
+  identifier (or `distinct`) with `lowerStr lower name = name` — exactly the names `parseCall`
+  returns among those printed readably; no hypothesis on the table is left. -/
+def Wide (lower : List (Char × Char)) (e : Expr) : Prop := RT.wOK lower e = true
+
+instance (lower : List (Char × Char)) (e : Expr) : Decidable (Wide lower e) :=
+  inferInstanceAs (Decidable (RT.wOK lower e = true))
+
+/-- **C03 (re-parsing, wide class).** For every expression of the wide class
+`ParseExpr(e.String())` returns exactly `e`, whatever parameters are bound, for every lower-casing
+table. -/
+theorem expr_print_parse_wide (e : Expr) (params : List (Str × BoundValue)) (lower : List (Char × Char))
+    (h : Wide lower e) : parseExprText e.print params lower = .ok e :=
+  RT.parseExprText_printW e params lower h
+
+/-- The state-level form for the wide class, with the continuations of a statement: `ParseExpr`
+started before `e.String()` followed by an `ExprEnd` (`)`, `,`, the end of the input, or one blank
+and a token that is no binary operator — `LIMIT`, `GROUP`, `AS`, …) returns `e` and stands
+before the continuation (`RT.Stand`) — or the fuel given was too small. -/
+theorem expr_print_parse_wide_state (fuel : Nat) (s : PState) (e : Expr) (k : List Char)
+    (h : Wide s.lowerTbl e) (hk : RT.ExprEnd k) (hs : RT.AtW s (e.print ++ k)) :
+    wp (parseExpr fuel) s (fun e' s' => e' = e ∧ RT.Stand s' k ∧ RT.Same s s') (· = .fuel) :=
+  (RT.w_specs s.lowerTbl fuel).1 s e k rfl h hk hs
+
+/-- The wide class contains the extended class whenever the table has non-ASCII entries only
+(the hypothesis of `expr_print_parse_partial`): the wide theorem subsumes both older ones. -/
+theorem printableX_wide (e : Expr) (h : PrintableX e) (lower : List (Char × Char))
+    (hl : ∀ p ∈ lower, 128 ≤ p.1.toNat) : Wide lower e :=
+  RT.rtOK_wOK true hl e h
+
+theorem printable_wide (e : Expr) (h : Printable e) (lower : List (Char × Char))
+    (hl : ∀ p ∈ lower, 128 ≤ p.1.toNat) : Wide lower e :=
+  RT.rtOK_wOK false hl e h
+
+/-- **Number literals.** `parse (print d) = d` for every canonical decimal below the bound, of
+either sign, as a whole expression. -/
+theorem number_print_parse_canonical (d : Dec) (hc : d.canonical = true) (hf : d.finite = true)
+    (params : List (Str × BoundValue)) (lower : List (Char × Char)) :
+    parseExprText d.print params lower = .ok (.number d) :=
+  expr_print_parse_wide (.number d) params lower (by
+    show RT.wOK lower (.number d) = true
+    rw [RT.wOK, hc, hf]; rfl)
+
+/-- **Duration literals.** `parse (print d) = d` for every duration but `MinInt64` (negative ones
+through the sign path of `parseUnaryExpr`). -/
+theorem duration_print_parse_expr (d : Int) (h1 : minInt64 < d) (h2 : d ≤ maxInt64)
+    (params : List (Str × BoundValue)) (lower : List (Char × Char)) :
+    parseExprText (formatDuration d) params lower = .ok (.duration d) :=
+  expr_print_parse_wide (.duration d) params lower (by
+    show RT.wOK lower (.duration d) = true
+    rw [RT.wOK]; simp [h1, h2])
+
+/-- **Call names.** A name containing an ASCII capital is changed by the parser's
+`strings.ToLower`, whatever the table: such a `Call` node is never returned by `ParseExpr` and is
+not in the class. -/
+theorem call_capital_not_wide (lower : List (Char × Char)) (name : Str) (args : List Expr) (c : Char)
+    (hc : c ∈ name) (h1 : 65 ≤ c.toNat) (h2 : c.toNat ≤ 90) : ¬ Wide lower (.call name args) := by
+  intro h
+  have h' : RT.wOK lower (.call name args) = true := h
+  rw [RT.wOK] at h'
+  simp only [Bool.and_eq_true] at h'
+  exact RT.lowerStr_ascii_capital lower name c hc h1 h2 (RT.callNameW_facts h'.1).1
+
+/-- Kernel-checked witnesses of what stays outside, each kept out by the class predicate:
+`F(x)` is read as `f(x)`; the non-canonical `1.50` (mantissa 150, scale 2) prints `1.5` and is
+read with mantissa 15, scale 1 (same value: a distinction of the model only, `float64` has one
+`1.5`); the printed form of the duration `MinInt64` is rejected; a wildcard carrying any other
+token prints as `*`. -/
+theorem wide_counterexamples :
+    (match parseExprText "F(x)".toList [] [] with
+      | .ok (.call n [.varRef v t]) => n == ['f'] && v == ['x'] && t == .Unknown
+      | _ => false) = true ∧
+    ¬ Wide [] (.call ['F'] [.varRef ['x'] .Unknown]) ∧
+    (Expr.number ⟨false, 150, 2⟩).print = "1.5".toList ∧
+    (match parseExprText (Expr.number ⟨false, 150, 2⟩).print [] [] with
+      | .ok (.number d) => d == ⟨false, 15, 1⟩
+      | _ => false) = true ∧
+    ¬ Wide [] (.number ⟨false, 150, 2⟩) ∧
+    (match parseExprText (Expr.duration minInt64).print [] [] with | .ok _ => false | .error _ => true) = true ∧
+    ¬ Wide [] (.duration minInt64) ∧
+    (match parseExprText (Expr.wildcard .MUL).print [] [] with
+      | .ok (.wildcard t) => t == .ILLEGAL
+      | _ => false) = true ∧
+    ¬ Wide [] (.wildcard .MUL) ∧
+    ¬ Wide [] (.binary .DIV (.varRef ['b'] .Unknown) (.binary .MUL (.integer (-1)) (.varRef ['a'] .Unknown))) := by
+  refine ⟨by decide +kernel, by decide, by decide, by decide +kernel, by decide, by decide +kernel, by decide,
+    by decide +kernel, by decide, by decide⟩
+
+-- non-vacuity: `time > now() - 1h30m AND value >= 1.5` (the duration prints normalised)
+example : Wide [] (.binary .AND
+    (.binary .GT (.varRef "time".toList .Unknown)
+      (.binary .SUB (.call "now".toList []) (.duration 5400000000000)))
+    (.binary .GTE (.varRef "value".toList .Unknown) (.number ⟨false, 15, 1⟩))) := by decide
+example : Expr.print (.binary .AND
+    (.binary .GT (.varRef "time".toList .Unknown)
+      (.binary .SUB (.call "now".toList []) (.duration 5400000000000)))
+    (.binary .GTE (.varRef "value".toList .Unknown) (.number ⟨false, 15, 1⟩))) =
+    "time > now() - 90m AND value >= 1.5".toList := by decide
+
+-- `mean(*)`, `count(distinct(host))`, `count(DISTINCT host)`, `a - -1`, `a * -2.5`, `-1h`
+example : Wide [] (.call "mean".toList [.wildcard .ILLEGAL]) := by decide
+example : Expr.print (.call "mean".toList [.wildcard .ILLEGAL]) = "mean(*)".toList := by decide
+example : Wide [] (.call "count".toList [.call "distinct".toList [.varRef "host".toList .Unknown]]) := by decide
+example : Expr.print (.call "count".toList [.call "distinct".toList [.varRef "host".toList .Unknown]]) =
+    "count(distinct(host))".toList := by decide
+example : Wide [] (.call "count".toList [.distinct "host".toList]) := by decide
+example : Expr.print (.call "count".toList [.distinct "host".toList]) = "count(DISTINCT host)".toList := by decide
+example : Wide [] (.binary .SUB (.varRef ['a'] .Unknown) (.integer (-1))) := by decide
+example : Expr.print (.binary .SUB (.varRef ['a'] .Unknown) (.integer (-1))) = "a - -1".toList := by decide
+example : Wide [] (.binary .MUL (.varRef ['a'] .Unknown) (.number ⟨true, 25, 1⟩)) := by decide
+example : Expr.print (.binary .MUL (.varRef ['a'] .Unknown) (.number ⟨true, 25, 1⟩)) = "a * -2.5".toList := by decide
+example : Wide [] (.binary .GT (.varRef ['t'] .Unknown) (.duration (-3600000000000))) := by decide
+example : Expr.print (.binary .GT (.varRef ['t'] .Unknown) (.duration (-3600000000000))) = "t > -1h".toList := by decide
+-- typed wildcards, a typed reference, a table with a non-ASCII entry, `-0.0`
+example : Wide [('Ä', 'ä')] (.call "max".toList
+    [.wildcard .FIELD, .wildcard .TAG, .varRef ['v'] .Float, .number ⟨true, 0, 1⟩]) := by decide
+example : Expr.print (.call "max".toList
+    [.wildcard .FIELD, .wildcard .TAG, .varRef ['v'] .Float, .number ⟨true, 0, 1⟩]) =
+    "max(*::field, *::tag, v::float, -0.0)".toList := by decide
+-- the literal of the first example is canonical and finite
+example : (Dec.canonical ⟨false, 15, 1⟩ && Dec.finite ⟨false, 15, 1⟩) = true := by decide
+
+/-- **Use inside statements** (the WHERE clause of the C02 statement families over the wide class):
+`parseCondition` on the printed clause ` WHERE <cond>` (or nothing) followed by a continuation whose
+first token is no operator and not `WHERE` returns the condition — which may now contain number
+and duration literals, calls and typed references (`time > now() - 90m AND value >= 1.5`) — and
+stands before the continuation, or the fuel was too small. -/
+theorem condition_print_parse_wide (fuel : Nat) (s : PState) (c : Option Expr) (k : Str)
+    (hc : CondOKW s.lowerTbl c) (hk : Follow k [.WHERE]) (hs : RT.Stand s (whereText c ++ k)) :
+    wp (parseCondition fuel) s (fun c' s' => c' = c ∧ RT.Stand s' k ∧ RT.Same s s') (· = .fuel) :=
+  parseCondition_printW fuel s c k hc hk hs
+
+example : CondOKW [] (some (.binary .AND
+    (.binary .GT (.varRef "time".toList .Unknown)
+      (.binary .SUB (.call "now".toList []) (.duration 5400000000000)))
+    (.binary .GTE (.varRef "value".toList .Unknown) (.number ⟨false, 15, 1⟩)))) := by decide
 
 end InfluxQL.C03
